@@ -464,7 +464,17 @@ inductive HOp where
   | dumps                                  -- `images.dumps()`: sets the header to the current version
   | setVersion (v : PyVal)                 -- `images.header.version = v`
   | loads (doc : PyVal) (n0 : Nat)         -- `images.loads(text)` into the same object
+  | discard (v a : Str) (id : Nat)         -- `images[v][a].discard(obj)`: the bucket stays, possibly empty
+  | delVariant (v : Str)                   -- `del images[v]`
 deriving Repr
+
+/-- `images[v][a].discard(obj)` on the table (no effect when the bucket or the object is absent: the harness only
+issues it for existing buckets) -/
+def cellsDiscard (cs : Cells) (v a : Str) (id : Nat) : Cells :=
+  cs.map fun va => if va.1 == v then (va.1, va.2.map fun ac => if ac.1 == a then (ac.1, ac.2.filter fun e => e.1 != id) else ac) else va
+
+/-- `del images[v]` -/
+def cellsDelVariant (cs : Cells) (v : Str) : Cells := cs.filter fun va => va.1 != v
 
 /-- one step of such a history: the object afterwards and whether the call raised (after a failed `loads` the
 state is not modelled: it is returned unchanged and histories end there) -/
@@ -476,6 +486,8 @@ def hstep (s : ImgState) : HOp → ImgState × Except Err Unit
     match deserializeInto s n0 doc with
     | .ok s' => (s', .ok ())
     | .error e => (s, .error e)
+  | .discard v a id => ({ s with cells := cellsDiscard s.cells v a id }, .ok ())
+  | .delVariant v => ({ s with cells := cellsDelVariant s.cells v }, .ok ())
 
 /-- `Images.loads` on the parsed text (`json.load` is outside the model); the final `validate()` has no rules to
 run for `Images` (checked against the generated inventory in `Properties/C02.lean`) -/
